@@ -857,8 +857,48 @@ func (c *Compiler) compileVariable(expr *ast.VariableExpr) error {
 	return nil
 }
 
+// compileLogicalOp compiles && and || with short-circuit evaluation:
+//
+//	left; JumpIfFalse decided; right; Push true;  And; Jump end; decided: Push false; end:   (&&)
+//	left; JumpIfTrue  decided; right; Push false; Or;  Jump end; decided: Push true;  end:   (||)
+//
+// The conditional jump pops the left value and rejects non-booleans; when it
+// falls through, the result is the right operand, which OpAnd/OpOr require to
+// be a boolean (true && b == b, false || b == b).
+func (c *Compiler) compileLogicalOp(expr *ast.BinaryOpExpr) error {
+	jumpOp, combine, decided := vm.OpJumpIfFalse, vm.OpAnd, false
+	if expr.Op == ast.Or {
+		jumpOp, combine, decided = vm.OpJumpIfTrue, vm.OpOr, true
+	}
+
+	if err := c.compileExpression(expr.Left); err != nil {
+		return err
+	}
+	jumpToDecided := len(c.code)
+	c.emitWithOperand(jumpOp, 0) // Placeholder
+
+	if err := c.compileExpression(expr.Right); err != nil {
+		return err
+	}
+	c.emitWithOperand(vm.OpPush, uint32(c.addConstant(vm.BoolValue{Val: !decided})))
+	c.emit(combine)
+	jumpToEnd := len(c.code)
+	c.emitWithOperand(vm.OpJump, 0) // Placeholder
+
+	c.patchJump(jumpToDecided, uint32(len(c.code)))
+	c.emitWithOperand(vm.OpPush, uint32(c.addConstant(vm.BoolValue{Val: decided})))
+	c.patchJump(jumpToEnd, uint32(len(c.code)))
+	return nil
+}
+
 // compileBinaryOp compiles binary operation
 func (c *Compiler) compileBinaryOp(expr *ast.BinaryOpExpr) error {
+	// Logical operators short-circuit, as in the interpreter: the right operand
+	// is evaluated only when the left one does not decide the result.
+	if expr.Op == ast.And || expr.Op == ast.Or {
+		return c.compileLogicalOp(expr)
+	}
+
 	// Compile left operand
 	if err := c.compileExpression(expr.Left); err != nil {
 		return err
